@@ -96,6 +96,19 @@ func buildPlan(co *corpus, thorough bool) []item {
 			}
 		}
 		add(item{Codec: ci, Seed: -1, Family: "val", cost: int64(len(cc.seeds)) * 50})
+		if cc.c.kind != kFailPkt {
+			for si := range cc.seeds {
+				s := &cc.seeds[si]
+				if !s.sweep || s.gen == nil {
+					continue
+				}
+				nf := fieldCount(s)
+				per := int64(len(s.full)/64 + 4)
+				for fi := 0; fi < nf; fi++ {
+					add(item{Codec: ci, Seed: si, Family: "field", Arg: fi, cost: 2200 * per * 3})
+				}
+			}
+		}
 		prev := -1
 		for si, s := range cc.seeds {
 			if s.valueOnly || s.full == nil {
@@ -390,6 +403,7 @@ type itemResult struct {
 	MaxReads   float64          `json:"max_reads_per_byte"`
 	Secs       float64          `json:"secs"`
 	FullChain  int64            `json:"full_chain"`
+	Triples    int64            `json:"triples"`
 	Oversize   int64            `json:"oversize_skipped"`
 	Samples    []any            `json:"samples,omitempty"`
 }
@@ -403,6 +417,8 @@ type replayCase struct {
 	Mut    *bytemut.Mut   `json:"mut,omitempty"`
 	Desc   map[string]any `json:"desc,omitempty"`
 	Family string         `json:"family,omitempty"`
+	Field  string         `json:"field,omitempty"` // field family: path of the swept field
+	Value  string         `json:"value,omitempty"` // field family: raw value (decimal)
 }
 
 type worker struct {
@@ -745,6 +761,10 @@ func (w *worker) runItem(it item, resumeAfter int) *itemResult {
 	if it.Seed >= 0 {
 		w.curSeed = &cc.seeds[it.Seed]
 	}
+	if it.Family == "field" {
+		w.sweepField(c, w.curSeed, it.Arg, resumeAfter, nil)
+		return res
+	}
 	// allocation accounting: precise per decode for large inputs; for small ones the
 	// total allocation of a chunk of K evaluations (decode + everything the harness
 	// does) is compared with the per-decode bound, and only a chunk that exceeds it is
@@ -964,28 +984,31 @@ func (p *wproc) readProgress() (idx, ord int) {
 }
 
 type agg struct {
-	mu         sync.Mutex
-	evals      int64
-	accepted   int64
-	shortAcc   int64
-	outcomes   map[string]int64
-	perCodec   map[string][2]int64 // evals, accepted
-	allocMax   map[string]uint64   // plain / zlib
-	allocMaxAt map[string]string
-	precise    int64
-	rechecked  int64
-	maxReads   float64
-	samples    []any
-	crashes    int
-	capsHit    []string
-	itemsDone  int
-	sigs       map[string]int
-	allocCodec map[string]uint64
-	fullChain  int64
-	oversize   int64
-	sampleFams map[string]int
-	secsFam    map[string]float64
-	secsCodec  map[string]float64
+	mu          sync.Mutex
+	evals       int64
+	accepted    int64
+	shortAcc    int64
+	outcomes    map[string]int64
+	perCodec    map[string][2]int64 // evals, accepted
+	allocMax    map[string]uint64   // plain / zlib
+	allocMaxAt  map[string]string
+	precise     int64
+	rechecked   int64
+	maxReads    float64
+	samples     []any
+	crashes     int
+	capsHit     []string
+	itemsDone   int
+	sigs        map[string]int
+	allocCodec  map[string]uint64
+	fullChain   int64
+	triples     int64
+	sweptFields int
+	sweptTypes  map[string]int
+	oversize    int64
+	sampleFams  map[string]int
+	secsFam     map[string]float64
+	secsCodec   map[string]float64
 }
 
 func TestC10Lnwire(t *testing.T) {
@@ -1056,7 +1079,7 @@ func TestC10Lnwire(t *testing.T) {
 	var pending atomic.Int64
 	pending.Store(int64(len(order)))
 
-	a := &agg{sampleFams: map[string]int{}, secsFam: map[string]float64{}, secsCodec: map[string]float64{}, sigs: map[string]int{}, allocCodec: map[string]uint64{}, outcomes: map[string]int64{}, perCodec: map[string][2]int64{}, allocMax: map[string]uint64{}, allocMaxAt: map[string]string{}, capsHit: []string{}}
+	a := &agg{sweptTypes: map[string]int{}, sampleFams: map[string]int{}, secsFam: map[string]float64{}, secsCodec: map[string]float64{}, sigs: map[string]int{}, allocCodec: map[string]uint64{}, outcomes: map[string]int64{}, perCodec: map[string][2]int64{}, allocMax: map[string]uint64{}, allocMaxAt: map[string]string{}, capsHit: []string{}}
 	var hashFiles []string
 	var hfMu sync.Mutex
 	var broken atomic.Bool
@@ -1327,6 +1350,11 @@ func (a *agg) add(co *corpus, it item, r *itemResult, run *evid.Run) {
 		}
 	}
 	a.fullChain += r.FullChain
+	a.triples += r.Triples
+	if it.Family == "field" && r.Triples > 0 {
+		a.sweptFields++
+		a.sweptTypes[c.name]++
+	}
 	a.oversize += r.Oversize
 	a.secsFam[it.Family] += r.Secs
 	a.secsCodec[c.name] += r.Secs
@@ -1364,6 +1392,20 @@ func (w *worker) caseAt(it item, ord int) replayCase {
 	}
 	if it.Seed >= 0 {
 		w.curSeed = &cc.seeds[it.Seed]
+	}
+	if it.Family == "field" {
+		rc.Kind, rc.Desc = "field", w.curSeed.desc
+		safely(func() {
+			ls := leaves(w.curSeed.gen())
+			if it.Arg < len(ls) {
+				rc.Field = ls[it.Arg].path
+				vals := sweepValues(ls[it.Arg].bits, ls[it.Arg].signed, sweepUpto(w.thorough))
+				if ord >= 0 && ord < len(vals) {
+					rc.Value = fmt.Sprint(vals[ord])
+				}
+			}
+		})
+		return rc
 	}
 	o := -1
 	found := false
@@ -1579,7 +1621,29 @@ func replayLnwire(t *testing.T, run *evid.Run, path string) {
 	w := &worker{co: co, verbose: true, shortLen: 2, res: &itemResult{Outcomes: map[string]int64{}}}
 	w.curItem = item{Family: rc.Family}
 	fmt.Printf("INFO replaying a %s case of codec %s (family %s)\n", rc.Kind, rc.Codec, rc.Family)
-	if rc.Kind == "value" {
+	if rc.Kind == "field" {
+		gen := genFromDesc(rc.Desc)
+		if gen == nil {
+			fmt.Printf("INFO cannot rebuild the value from %v\n", rc.Desc)
+			os.Exit(3)
+		}
+		s := &seed{name: "replay", gen: gen, desc: rc.Desc}
+		w.curSeed = s
+		w.curItem = item{Family: "field"}
+		fi := -1
+		for i, l := range leaves(gen()) {
+			if l.path == rc.Field {
+				fi = i
+			}
+		}
+		raw, err := strconv.ParseUint(rc.Value, 10, 64)
+		if fi < 0 || err != nil {
+			fmt.Printf("INFO field %q not found in the rebuilt value (or bad value %q)\n", rc.Field, rc.Value)
+			os.Exit(3)
+		}
+		fmt.Printf("INFO value %v of %s: setting field %s to %d\n", rc.Desc, rc.Codec, rc.Field, raw)
+		w.sweepField(c, s, fi, -1, &raw)
+	} else if rc.Kind == "value" {
 		gen := genFromDesc(rc.Desc)
 		if g, _ := rc.Desc["gen"].(string); g == "zero" {
 			pfx := c.prefix
